@@ -1248,7 +1248,27 @@ func ruleTimeoutSource(c *Ctx, p *core.Program, rule string) {
 				asksCtx = true
 			}
 		}
-		if !asksCtx || !core.ReachesCallee(fn, func(f *types.Func) bool { return f.Name() == "SetReadDeadline" }, 1) {
+		if !asksCtx {
+			continue
+		}
+		// the function sets the read deadline itself, or computes it for a caller that does
+		setsRead := func(g *ssa.Function) bool {
+			return core.ReachesCallee(g, func(f *types.Func) bool { return f.Name() == "SetReadDeadline" }, 1)
+		}
+		onReadPath := setsRead(fn)
+		if !onReadPath {
+			for _, g := range p.Funcs() {
+				if g.Pkg == nil || g.Pkg.Pkg.Path() != core.PkgCh || !setsRead(g) {
+					continue
+				}
+				for _, call := range core.Calls(g) {
+					if core.StaticFn(call) == fn {
+						onReadPath = true
+					}
+				}
+			}
+		}
+		if !onReadPath {
 			continue
 		}
 		for _, call := range core.Calls(fn) {
